@@ -379,7 +379,7 @@ impl<'a, T: QueryToRelationTranslator + Copy + Clone> VisitedQueryRelations<'a, 
             .operator(operator)
             .left(left_relation)
             .right(right_relation)
-            .build();
+            .try_build()?;
         let join_columns: Hierarchy<Identifier> =
             join.field_inputs().map(|(f, i)| (i, f.into())).collect();
 
